@@ -369,8 +369,10 @@ def diagnose(rec, fails):
 
     def grace_dur(f):
         return f[1] in s_info and f[0] == "duration" and not s_info[f[1]]["dur"] > 0
-    grouped = [f for f in fails if in_group(f)]
-    graces = [f for f in fails if not in_group(f) and grace_dur(f)]
+    # a grace note whose duration decodes wrongly is the grace-note mechanism first (it also occurs inside equal-key groups,
+    # e.g. a grace note repeating the pitch of its main note)
+    graces = [f for f in fails if grace_dur(f)]
+    grouped = [f for f in fails if in_group(f) and not grace_dur(f)]
     rest = [f for f in fails if not in_group(f) and not grace_dur(f)]
     if graces:
         out["grace-note-duration-not-reproduced"] = graces
